@@ -57,10 +57,12 @@ theorem parensRule_eq_needSide (parent : BinOp) (isRhs : Bool) (o : BinOp) (l r 
     parensRule parent isRhs o = needSide parent isRhs (.bin o l r) := by
   cases parent <;> cases isRhs <;> cases o <;> rfl
 
-/-- an expression that is not a `BinOp` is one leaf item -/
+/-- an expression that is not a `BinOp` is one leaf item (an atom, or a group for a logic node under a parent) -/
 theorem items_nonbin (ctx : Option (BinOp × Bool)) (e : Exp α) (h : ∀ o l r, e ≠ .bin o l r) :
-    items ctx e = [.atom e] := by
-  cases e <;> first | rfl | exact absurd rfl (h _ _ _)
+    ∃ it, items ctx e = [it] ∧ it.tree? = some e := by
+  cases ctx with
+  | none => cases e <;> first | exact absurd rfl (h _ _ _) | exact ⟨_, rfl, rfl⟩
+  | some p => cases e <;> first | exact absurd rfl (h _ _ _) | exact ⟨_, rfl, rfl⟩
 
 /-- the shapes `items` gives a `BinOp` node -/
 theorem items_bin (ctx : Option (BinOp × Bool)) (o : BinOp) (l r : Exp α) :
@@ -88,16 +90,19 @@ theorem core (n : Nat) : ∀ (t : Exp α), skel t ≤ n → ∀ (ctx : Option (B
   induction n with
   | zero =>
     intro t hs ctx r rest t' rest' hc hl
-    have : items ctx t = [.atom t] := by
-      cases t with
-      | bin o l r => simp [skel] at hs
-      | _ => rfl
-    rw [this]; exact .mk rfl hl
+    obtain ⟨it, hit, htree⟩ := items_nonbin ctx t (by
+      intro o l r e; subst e; simp [skel] at hs)
+    rw [hit]; exact .mk htree hl
   | succ n ih =>
     intro t hs ctx r rest t' rest' hc hl
     rcases hc with ⟨it, hleaf, htree⟩ | ⟨hfit, hstop⟩
     · rw [hleaf]; exact .mk htree hl
-    · cases t with
+    · have key : ∀ (t : Exp α), (∀ o l r, t ≠ .bin o l r) → PLoop r t rest t' rest' →
+          PExpr r (items ctx t ++ rest) t' rest' := by
+        intro t hnb hl'
+        obtain ⟨it, hit, htree⟩ := items_nonbin ctx t hnb
+        rw [hit]; exact .mk htree hl'
+      cases t with
       | bin o l r' =>
         simp only [skel] at hs
         simp only [topFits] at hfit
@@ -127,7 +132,7 @@ theorem core (n : Nat) : ∀ (t : Exp α), skel t ≤ n → ∀ (ctx : Option (B
                     have hq := hstopR q tl rfl
                     simp only [stopsAfter]
                     have := rbp_ge o2; omega
-            | _ => left; exact ⟨_, rfl, rfl⟩
+            | _ => left; apply items_nonbin; intro o l r e; cases e
           have hstep : PLoop r l (.infix o :: (items (some (o, true)) r' ++ rest)) t' rest' := .step hfit hRp hl
           have := ih l (by omega) (some (o, false)) r (.infix o :: (items (some (o, true)) r' ++ rest)) t' rest' ?_ hstep
           · simpa [List.append_assoc] using this
@@ -139,7 +144,9 @@ theorem core (n : Nat) : ∀ (t : Exp α), skel t ≤ n → ∀ (ctx : Option (B
                 simp [needLeft] at hneed
                 have := rbp_le o1
                 exact ⟨by simp [topFits]; omega, by simpa [stopsAfter] using hneed⟩
-            | _ => left; exact ⟨_, rfl, rfl⟩
-      | _ => exact .mk rfl hl
+            | _ => left; apply items_nonbin; intro o l r e; cases e
+      | _ =>
+        refine key _ ?_ hl
+        intro o l r e; cases e
 
 end Rooc.Display
